@@ -11,7 +11,7 @@ FLAVOURS = ("prod", "san")
 RULE = ("(a) invocation catalogue x generator: every tool with fully specified inputs (dates, "
         "date-times with seconds, explicit formats and zones) and underspecified inputs with --base "
         "(month-day without year, two-digit years, a bare time with --zone / --from-zone of a zone with "
-        "daylight saving); each run under the baseline environment and "
+        "daylight saving, dseq between two times without an increment); each run under the baseline environment and "
         "under 3 generated environments: TZ in {unset, UTC, America/New_York, Asia/Kolkata, "
         "Pacific/Apia, EST5EDT, :/etc/localtime, garbage}, LANG/LC_ALL/LC_TIME in {unset, C, POSIX, "
         "de_DE.UTF-8, tr_TR.UTF-8, ja_JP.eucJP, garbage}, wall clock (LD_PRELOAD on the unsanitised "
@@ -91,7 +91,7 @@ def _zone(name):
 
 def gen_invocation(rnd, B):
     """returns (tool, args, stdin, expected stdout or None, tag)"""
-    k = rnd.randrange(18)
+    k = rnd.randrange(20)
     n, s, d = dt(rnd, B, rnd.random() < 0.5)
     n2, s2, d2 = dt(rnd, B, "T" in d)
     if k == 0:
@@ -127,6 +127,15 @@ def gen_invocation(rnd, B):
         return "dconv", ["-S", "-f", "%d %b %Y (%a)"], lines.encode(), None, "dconv:-S"
     if k == 11:
         return "dconv", ["-i", "%d %b %Y", "%02d %s %04d" % (R.ymd(n)[2], R.MON_ABBR[R.ymd(n)[1] - 1], R.ymd(n)[0]), "-f", "%F"], b"", R.f_ymd(n) + "\n", "dconv:-i"
+    if k >= 18:
+        # fully specified times, the increment left to the tool: nothing here may come from the clock
+        h = rnd.randrange(0, 23)
+        if k == 18:
+            t1, t2 = "%02d:00:00" % h, "%02d:00:00" % min(23, h + rnd.randrange(1, 6))
+        else:
+            m = rnd.randrange(0, 50)
+            t1, t2 = "%02d:%02d:00" % (h, m), "%02d:%02d:00" % (h, m + rnd.randrange(1, 9))
+        return "dseq", [t1, t2], b"", None, "dseq:times"
     if k >= 16:
         # a bare time with --base and a zone: the date that decides the offset is the base, not today
         zname = rnd.choice(["Europe/Berlin", "America/New_York", "Australia/Sydney", "America/Santiago", "Asia/Kolkata"])
